@@ -252,7 +252,7 @@ theorem exec_gov_other {w w' : World} {blk op o} (h : w.exec blk op = .ok (w', o
     exact connect_gov hs
   | transferNative snd funds msg =>
     simp [World.exec] at h
-    obtain ⟨w1, hw1, s, out, hs, rfl, _⟩ := h
+    obtain ⟨_, w1, hw1, s, out, hs, rfl, _⟩ := h
     have e : w1.st = w.st := by
       split at hw1
       · split at hw1
@@ -266,7 +266,7 @@ theorem exec_gov_other {w w' : World} {blk op o} (h : w.exec blk op = .ok (w', o
     rw [e] at this; exact this
   | sendCw20 snd token amt msg =>
     simp [World.exec] at h
-    obtain ⟨_, w1, hw1, s, out, hs, rfl, _⟩ := h
+    obtain ⟨_, _, w1, hw1, s, out, hs, rfl, _⟩ := h
     have e : w1.st = w.st := by
       split at hw1
       · rename_i hb; simp at hw1; subst hw1; exact tokSend_st hb
@@ -475,7 +475,7 @@ theorem cw20_transfer_gate_tx {w w' : World} {blk : Block} {o : Outcome} :
   constructor
   · intro snd t amt msg h
     simp [World.exec] at h
-    obtain ⟨_, w1, hw1, s, out, hs, _⟩ := h
+    obtain ⟨_, _, w1, hw1, s, out, hs, _⟩ := h
     have e : w1.st = w.st := by
       split at hw1
       · rename_i hb; simp at hw1; subst hw1; exact tokSend_st hb
